@@ -63,59 +63,74 @@ theorem requiredFieldMap_single {req present : List Nat} {t : Nat} (hr : t ∈ r
     · exact absurd (honly t' hr' e) hm'
   rw [h, this]
 
-/-- validateFields passes iff every field passes validateField against its section's dictionary -/
+/-- validateFields passes if every field other than MsgType passes validateField against its section's dictionary -/
 theorem validateFields_ok {tr app : VDict} {s : Settings} {fs : List TV}
-    (h : ∀ f ∈ fs, validateField (if isHeaderTag f.tag || isTrailerTag f.tag then tr else app) s f = .ok ()) :
+    (h : ∀ f ∈ fs, f.tag ≠ 35 → validateField (if isHeaderTag f.tag || isTrailerTag f.tag then tr else app) s f = .ok ()) :
     validateFields tr app s fs = .ok () := by
   induction fs with
   | nil => rfl
   | cons f r ih =>
-    simp only [validateFields, bind, Except.bind]
-    rw [h f (List.mem_cons_self ..)]
-    exact ih (fun g hg => h g (List.mem_cons_of_mem _ hg))
+    have ih' := ih (fun g hg => h g (List.mem_cons_of_mem _ hg))
+    by_cases h35 : f.tag = 35
+    · simp only [validateFields, h35, if_true]; exact ih'
+    · simp only [validateFields, h35, if_false, bind, Except.bind]
+      rw [h f (List.mem_cons_self ..) h35]
+      exact ih'
 
-/-- the first field that fails validateField decides validateFields -/
+/-- the first field (other than MsgType) that fails validateField decides validateFields -/
 theorem validateFields_first {tr app : VDict} {s : Settings} {pre post : List TV} {f : TV} {e : Stop}
-    (hpre : ∀ g ∈ pre, validateField (if isHeaderTag g.tag || isTrailerTag g.tag then tr else app) s g = .ok ())
+    (hpre : ∀ g ∈ pre, g.tag ≠ 35 → validateField (if isHeaderTag g.tag || isTrailerTag g.tag then tr else app) s g = .ok ())
+    (h35 : f.tag ≠ 35)
     (hf : validateField (if isHeaderTag f.tag || isTrailerTag f.tag then tr else app) s f = .error e) :
     validateFields tr app s (pre ++ f :: post) = .error e := by
   induction pre with
   | nil =>
-    simp only [List.nil_append, validateFields, bind, Except.bind]
+    simp only [List.nil_append, validateFields, h35, if_false, bind, Except.bind]
     rw [hf]
   | cons g r ih =>
-    simp only [List.cons_append, validateFields, bind, Except.bind]
-    rw [hpre g (List.mem_cons_self ..)]
-    exact ih (fun x hx => hpre x (List.mem_cons_of_mem _ hx))
+    have ih' := ih (fun x hx => hpre x (List.mem_cons_of_mem _ hx))
+    by_cases g35 : g.tag = 35
+    · simp only [List.cons_append, validateFields, g35, if_true]; exact ih'
+    · simp only [List.cons_append, validateFields, g35, if_false, bind, Except.bind]
+      rw [hpre g (List.mem_cons_self ..) g35]
+      exact ih'
 
 /-! ### validateField, case by case -/
 
 theorem validateField_empty (d : VDict) (s : Settings) (f : TV) (h : f.value = []) :
     validateField d s f = .error (.reject ⟨4, some f.tag⟩) := by
-  simp [validateField, h, rej]
+  simp [validateField, validateFieldWith, h, rej]
 
 theorem validateField_undefined (d : VDict) (s : Settings) (f : TV) (hv : f.value ≠ [])
     (hu : d.ftype f.tag = none) (hs : checkFieldNotDefined s f.tag = false) :
     validateField d s f = .error (.reject ⟨0, some f.tag⟩) := by
   cases hval : f.value with
   | nil => exact absurd hval hv
-  | cons a b => simp [validateField, hval, hu, hs, rej]
+  | cons a b => simp [validateField, validateFieldWith, hval, hu, hs, rej]
 
 theorem validateField_undefined_tolerated (d : VDict) (s : Settings) (f : TV) (hv : f.value ≠ [])
     (hu : d.ftype f.tag = none) (hs : checkFieldNotDefined s f.tag = true) :
     validateField d s f = .ok () := by
   cases hval : f.value with
   | nil => exact absurd hval hv
-  | cons a b => simp [validateField, hval, hu, hs]
+  | cons a b => simp [validateField, validateFieldWith, hval, hu, hs]
 
 theorem validateField_bad_enum (d : VDict) (s : Settings) (f : TV) (ft : FType) (hv : f.value ≠ [])
-    (hd : d.ftype f.tag = some ft) (hne : ft.enums ≠ []) (hnot : f.value ∉ ft.enums) :
+    (hd : d.ftype f.tag = some ft) (hne : ft.enums ≠ []) (hnot : f.value ∉ ft.enums)
+    (htok : ft.multi = false ∨ ∃ tok ∈ splitOn32 f.value [], tok ∉ ft.enums) :
     validateField d s f = .error (.reject ⟨5, some f.tag⟩) := by
+  have hbad : enumOK ft f.value = false := by
+    rcases htok with h | ⟨tok, h1, h2⟩
+    · simp [enumOK, hne, hnot, h]
+    · simp only [enumOK, Bool.or_eq_false_iff, Bool.and_eq_false_iff]
+      refine ⟨⟨by simp [hne], by simpa using hnot⟩, Or.inr ?_⟩
+      simp only [List.all_eq_false]
+      exact ⟨tok, h1, by simpa using h2⟩
   cases hval : f.value with
   | nil => exact absurd hval hv
   | cons a b =>
-    rw [hval] at hnot
-    simp [validateField, hval, hd, hne, hnot, rej]
+    rw [hval] at hbad
+    simp [validateField, validateFieldWith, hval, hd, hbad, rej]
 
 theorem validateField_bad_format (d : VDict) (s : Settings) (f : TV) (ft : FType) (p : Proto) (hv : f.value ≠ [])
     (hd : d.ftype f.tag = some ft) (henum : ft.enums = [] ∨ f.value ∈ ft.enums)
@@ -125,9 +140,11 @@ theorem validateField_bad_format (d : VDict) (s : Settings) (f : TV) (ft : FType
   | nil => exact absurd hval hv
   | cons a b =>
     rw [hval] at henum hbad
-    rcases henum with h | h
-    · simp [validateField, hval, hd, h, hp, hbad, rej]
-    · simp [validateField, hval, hd, h, hp, hbad, rej]
+    have hok : enumOK ft (a :: b) = true := by
+      rcases henum with h | h
+      · simp [enumOK, h]
+      · simp [enumOK, h]
+    simp [validateField, validateFieldWith, hval, hd, hok, hp, hbad, rej]
 
 theorem validateField_ok (d : VDict) (s : Settings) (f : TV) (ft : FType) (p : Proto) (hv : f.value ≠ [])
     (hd : d.ftype f.tag = some ft) (henum : ft.enums = [] ∨ f.value ∈ ft.enums)
@@ -137,9 +154,11 @@ theorem validateField_ok (d : VDict) (s : Settings) (f : TV) (ft : FType) (p : P
   | nil => exact absurd hval hv
   | cons a b =>
     rw [hval] at henum hgood
-    rcases henum with h | h
-    · simp [validateField, hval, hd, h, hp, hgood]
-    · simp [validateField, hval, hd, h, hp, hgood]
+    have hok : enumOK ft (a :: b) = true := by
+      rcases henum with h | h
+      · simp [enumOK, h]
+      · simp [enumOK, h]
+    simp [validateField, validateFieldWith, hval, hd, hok, hp, hgood]
 
 /-! ### section order (validateFieldContent) -/
 
@@ -268,7 +287,7 @@ theorem walkLoop_flat (tr app : VDict) (s : Settings) (body : MDef) : ∀ (fs : 
           have := hseen f (List.mem_cons_self ..)
           simpa using this
         simp only [defFor] at h1
-        simp only [walkLoop, h1, hns, h2, visitField, h3]
+        simp only [walkLoop, h1, hns, h2, visitField, visitFieldW, h3]
         simp only [List.map_cons, List.nodup_cons] at hnd
         simp
         apply ih
@@ -314,7 +333,7 @@ theorem walkLoop_duplicate (tr app : VDict) (s : Settings) (body : MDef) : ∀ (
           have := hseen g (List.mem_cons_self ..)
           simpa using this
         simp only [defFor] at h1
-        simp only [List.cons_append, walkLoop, h1, hns, h2, visitField, h3]
+        simp only [List.cons_append, walkLoop, h1, hns, h2, visitField, visitFieldW, h3]
         simp only [List.map_cons, List.nodup_cons] at hnd
         simp
         apply ih
